@@ -245,7 +245,10 @@ func (d *DBFT[H]) onTimeout(height uint32, view byte, force bool) {
 
 // OnReceive advances state machine in accordance with msg.
 func (d *DBFT[H]) OnReceive(msg ConsensusPayload[H]) {
-	if int(msg.ValidatorIndex()) >= len(d.Validators) {
+	// The index can only be checked against the validator list of our own
+	// height. Messages for future heights are cached as is and checked when
+	// they are replayed (the list may have grown by then).
+	if msg.Height() <= d.BlockIndex && int(msg.ValidatorIndex()) >= len(d.Validators) {
 		d.Logger.Error("too big validator index", zap.Uint16("from", msg.ValidatorIndex()))
 		return
 	}
